@@ -27,47 +27,60 @@ static const spec_sponge_params SPEC_PRF  = {32, 16, 0, 0, 0, 1};
 
 typedef struct { spec_state s; unsigned count; unsigned mode; } spec_sponge;
 
-/* one absorb CALL with n bytes */
-static inline void spec_sponge_absorb(const spec_sponge_params *pp, spec_sponge *sp, const uint8_t *d, size_t n)
+/* one absorb CALL with n bytes (by value: under DFCC every store through a
+ * pointer is checked against the write set, which dominates the formula) */
+static inline spec_sponge spec_sponge_absorb_v(const spec_sponge_params *pp, spec_sponge sp, const uint8_t *d, size_t n)
 {
     size_t i;
-    if (sp->mode) {                    /* back from squeezing: a full permutation separates the phases */
-        sp->mode = 0;
-        sp->count = 0;
-        sp->s = spec_P(sp->s, 0);
+    unsigned rate_in = pp->rate_in, round_absorb = pp->round_absorb;
+    if (sp.mode) {                    /* back from squeezing: a full permutation separates the phases */
+        sp.mode = 0;
+        sp.count = 0;
+        sp.s = spec_P(sp.s, 0);
     }
     for (i = 0; i < n; ++i) {
-        sp->s = spec_xor(sp->s, sp->count, d[i]);
-        if (++sp->count == pp->rate_in) {
-            sp->s = spec_P(sp->s, pp->round_absorb);
-            sp->count = 0;
+        sp.s = spec_xor(sp.s, sp.count, d[i]);
+        if (++sp.count == rate_in) {
+            sp.s = spec_P(sp.s, round_absorb);
+            sp.count = 0;
         }
     }
+    return sp;
+}
+static inline void spec_sponge_absorb(const spec_sponge_params *pp, spec_sponge *sp, const uint8_t *d, size_t n)
+{
+    *sp = spec_sponge_absorb_v(pp, *sp, d, n);
 }
 
 /* one squeeze CALL producing n bytes */
-static inline void spec_sponge_squeeze(const spec_sponge_params *pp, spec_sponge *sp, uint8_t *out, size_t n)
+static inline spec_sponge spec_sponge_squeeze_v(const spec_sponge_params *pp, spec_sponge sp, uint8_t *out, size_t n)
 {
     size_t i;
-    if (!sp->mode) {                   /* input finished: 10* padding (and separator), p^a */
-        sp->s = spec_pad(sp->s, sp->count);
+    unsigned rate_out = pp->rate_out, round_squeeze = pp->round_squeeze, eager = pp->eager;
+    if (!sp.mode) {                   /* input finished: 10* padding (and separator), p^a */
+        sp.s = spec_pad(sp.s, sp.count);
         if (pp->separator)
-            sp->s = spec_separator(sp->s);
-        sp->count = 0;
-        sp->mode = 1;
-        if (pp->eager)
-            sp->s = spec_P(sp->s, 0);
+            sp.s = spec_separator(sp.s);
+        sp.count = 0;
+        sp.mode = 1;
+        if (eager)
+            sp.s = spec_P(sp.s, 0);
     }
     for (i = 0; i < n; ++i) {
-        if (!pp->eager && sp->count == 0)
-            sp->s = spec_P(sp->s, pp->round_squeeze);   /* all rounds numbers are 0 for the lazy families */
-        out[i] = spec_get(sp->s, sp->count);
-        if (++sp->count == pp->rate_out) {
-            sp->count = 0;
-            if (pp->eager)
-                sp->s = spec_P(sp->s, pp->round_squeeze);
+        if (!eager && sp.count == 0)
+            sp.s = spec_P(sp.s, round_squeeze);   /* all round numbers are 0 for the lazy families */
+        out[i] = spec_get(sp.s, sp.count);
+        if (++sp.count == rate_out) {
+            sp.count = 0;
+            if (eager)
+                sp.s = spec_P(sp.s, round_squeeze);
         }
     }
+    return sp;
+}
+static inline void spec_sponge_squeeze(const spec_sponge_params *pp, spec_sponge *sp, uint8_t *out, size_t n)
+{
+    *sp = spec_sponge_squeeze_v(pp, *sp, out, n);
 }
 
 #endif
